@@ -105,14 +105,14 @@ def inject(scr, cfg):
         i = txt.find("#![")
         txt = txt[:i] + "#![cfg_attr(kani, feature(allocator_api))]\n" + txt[i:]
         lib.write_text(txt)
-    pairs = [("src/biguint.rs", "common.rs", "verif_common")] + [
+    pairs = [("src/biguint.rs", "common.rs", "verif_common"), ("src/bigint.rs", "icommon.rs", "verif_icommon")] + [
         (src, h, "verif_" + re.sub(r"\W", "_", h.rsplit(".", 1)[0])) for (src, h) in cfg.get("inject", [])]
     for src, h, modname in pairs:
         f = scr.repo / src
         if not f.exists():
             raise RuntimeError("anchored file missing in tree: %s" % src)
         hp = scr.harness / h
-        vis = "pub(crate) " if h == "common.rs" else ""
+        vis = "pub(crate) " if h in ("common.rs", "icommon.rs") else ""
         with open(f, "a") as fh:
             fh.write('\n#[cfg(kani)] #[path = "%s"] %smod %s;\n' % (hp, vis, modname))
         injected.append((src, h))
@@ -404,7 +404,13 @@ def run(pid, cfg, tier, seed, scr, only, a, t0):
     known = load_known()
     violations, known_hits, unreproduced = [], [], []
     cands = [q for q in queries if q["status"] == "CANDIDATE"]
+    max_replays = int(os.environ.get("VERIF_MAX_REPLAYS", "3"))
     for i, q in enumerate(cands):
+        if q["engine"] == "kani" and (i >= max_replays or (violations and i >= 1)):
+            # replaying costs ~1 min each: after the cap the remaining candidates are listed but not replayed
+            q["replay"] = dict(reproduced=False, note="not replayed (cap of %d native replays per run)" % max_replays)
+            q["status"] = "NOT-REPLAYED"
+            continue
         if q["engine"] == "kani":
             rep = replay_candidate(scr, q, cfg["kani"][q["batch"]], i)
         else:
